@@ -83,6 +83,7 @@ class Engine:
         self._range_solver.set("timeout", SOLVER_TIMEOUT_MS)
         self._or_cache = {}
         self._excl_cache = {}
+        self.stop_on_violation = False
         self.frozen = 0
         self.pending_v = False
         self.prefix_pc = None
@@ -466,6 +467,8 @@ class Engine:
                     self.complete = True
                     return True
                 self.prefix = list(tr)
+                if self.stop_on_violation and self.violations:
+                    return False
                 if max_paths is not None and done_here >= max_paths:
                     self._delegate(tr, frozen)
                     self.complete = True
